@@ -33,6 +33,7 @@ func init() {
 	commands["c15ref"] = c15RefMain
 	commands["c15sched"] = c15SchedMain
 	commands["c15det"] = c15DetMain
+	commands["c15docs"] = c15DocsMain
 }
 
 // c15det: every document of the Flow.tla generator is rendered several times in this process (a font configuration of
@@ -69,6 +70,51 @@ func c15DetMain(args []string) int {
 				}
 				out.Disagree("C15:nondeterministic-render:"+strings.Join(ks, "+"), fmt.Sprintf("render %d of the same document produced %d backend calls with digest %s, the first render %s: %s", k+1, n, dg, first, doc[strings.Index(doc, "<body>"):]),
 					map[string]interface{}{"doc": doc, "scenario": json.RawMessage(line)})
+				return
+			}
+		}
+	})
+}
+
+// c15docs: every document of the Docs.tla generator (the C01 document space: 130 feature bundles) is rendered several
+// times in this process (a font configuration of its own from the second render on); all the renders must produce the
+// same backend calls. A document whose render panics is left to C01.
+func c15DocsMain(args []string) int {
+	times := 3
+	return drv.Main("c15docs", args, func(fs *flag.FlagSet) { fs.IntVar(&times, "times", 3, "renders per document") }, func(line []byte, out *drv.Out) {
+		var s c01Scn
+		if err := json.Unmarshal(line, &s); err != nil {
+			out.Fatal("bad scenario: " + err.Error())
+			return
+		}
+		doc, err := c01HTML(&s, nil)
+		if err != nil {
+			out.Fatal(err.Error())
+			return
+		}
+		out.Count("documents")
+		var first string
+		for k := 0; k < times; k++ {
+			var dg string
+			var n int
+			_, _, panicked := drv.Guard(func() {
+				_, r, err := drv.Render(doc, &drv.Opts{FreshFC: k > 0, Files: map[string]string{}})
+				if err != nil {
+					dg = "refused"
+					return
+				}
+				dg, n = c15Digest(r)
+			})
+			if panicked {
+				out.Count("skipped-crashing-documents")
+				return
+			}
+			out.Count("renders")
+			if k == 0 {
+				first = dg
+			} else if dg != first {
+				out.Disagree("C15:nondeterministic-render:docs:"+c01Culprit(doc), fmt.Sprintf("render %d of the same document {%s page=%s extra=%s} produced %d backend calls with digest %s, the first render %s",
+					k+1, c01Bundlenames(&s), s.Page, s.Extra, n, dg, first), map[string]interface{}{"doc": doc, "scenario": json.RawMessage(line)})
 				return
 			}
 		}
@@ -192,7 +238,9 @@ var c15Refs string
 
 func c15SchedMain(args []string) int {
 	var refs map[string]string
-	return drv.Main("c15sched", args, func(fs *flag.FlagSet) { fs.StringVar(&c15Refs, "refs", "", "JSON file: document -> fresh-process digest") }, func(line []byte, out *drv.Out) {
+	return drv.Main("c15sched", args, func(fs *flag.FlagSet) {
+		fs.StringVar(&c15Refs, "refs", "", "JSON file: document -> fresh-process digest")
+	}, func(line []byte, out *drv.Out) {
 		if refs == nil {
 			b, err := os.ReadFile(c15Refs)
 			if err != nil {
